@@ -426,6 +426,31 @@ func evalNA(c CaseNA) Result {
 			return fail("%s", m)
 		}
 	}
+	if ht != sipsp.HdrContact {
+		// no Contact header in this block: the expires summary is the Expires header alone, or absent
+		got, okk := pv.MaxExpires()
+		if c.ExpHdr >= 0 {
+			if !okk || got != uint32(c.ExpHdr) {
+				return fail("MaxExpires() = (%d, %v) without Contact and with Expires: %d, want (%d, true)", got, okk, c.ExpHdr, c.ExpHdr)
+			}
+		} else if okk || got != 0 {
+			return fail("MaxExpires() = (%d, %v) with neither Contact nor Expires, want (0, false)", got, okk)
+		}
+		if pv.Contacts.Parsed() || !pv.Contacts.Empty() || pv.Contacts.N != 0 {
+			return fail("contact list not empty without a Contact header: N=%d Parsed=%v", pv.Contacts.N, pv.Contacts.Parsed())
+		}
+	}
+	// state predicates of what was (not) parsed
+	if pv.From.Parsed() != (ht == sipsp.HdrFrom) || pv.To.Parsed() != (ht == sipsp.HdrTo) ||
+		pv.From.Empty() != (ht != sipsp.HdrFrom) || pv.To.Empty() != (ht != sipsp.HdrTo) || pv.From.Pending() || pv.To.Pending() {
+		return fail("From/To state predicates wrong: From P/E/Pd=%v/%v/%v To P/E/Pd=%v/%v/%v", pv.From.Parsed(), pv.From.Empty(), pv.From.Pending(),
+			pv.To.Parsed(), pv.To.Empty(), pv.To.Pending())
+	}
+	if pv.Expires.Parsed() != (c.ExpHdr >= 0) || pv.Expires.Empty() != (c.ExpHdr < 0) || pv.Expires.Pending() ||
+		pv.CLen.Parsed() || !pv.CLen.Empty() || pv.Callid.Parsed() || !pv.Callid.Empty() || pv.CSeq.Parsed() || !pv.CSeq.Empty() {
+		return fail("state predicates of absent / present headers wrong (Expires present=%v: P/E=%v/%v; CLen P=%v Callid P=%v CSeq P=%v)",
+			c.ExpHdr >= 0, pv.Expires.Parsed(), pv.Expires.Empty(), pv.CLen.Parsed(), pv.Callid.Parsed(), pv.CSeq.Parsed())
+	}
 	// Hdr.Val of each header of the kind = its own trimmed value
 	k := 0
 	for i := 0; i < hl.N; i++ {
@@ -459,6 +484,9 @@ func cmpContacts(buf []byte, cts *sipsp.PContacts, flat []refNA, hno int, minE, 
 	if cts.MaxExpires != maxE || cts.MinExpires != minE {
 		return fmt.Sprintf("Min/MaxExpires = %d/%d, want %d/%d (over all %d values)", cts.MinExpires, cts.MaxExpires, minE, maxE, len(flat))
 	}
+	if cts.Parsed() != (len(flat) > 0) || cts.Empty() != (len(flat) == 0) || cts.VNo() != minInt(len(flat), len(cts.Vals)) {
+		return fmt.Sprintf("contact list predicates: Parsed()=%v Empty()=%v VNo()=%d with %d values, capacity %d", cts.Parsed(), cts.Empty(), cts.VNo(), len(flat), len(cts.Vals))
+	}
 	if cts.More() != (len(flat) > len(cts.Vals)) {
 		return fmt.Sprintf("More() = %v with %d values and capacity %d", cts.More(), len(flat), len(cts.Vals))
 	}
@@ -488,6 +516,14 @@ func cmpPAIs(buf []byte, p *sipsp.PPAIs, flat []refNA, hno int, lastStart, lastE
 	}
 	if p.HNo != hno && hno > 1 {
 		return fmt.Sprintf("identity header count HNo = %d, want %d", p.HNo, hno)
+	}
+	if p.Parsed() != (len(flat) > 0) || p.Empty() != (len(flat) == 0) || p.VNo() != minInt(len(flat), len(p.Vals)) {
+		return fmt.Sprintf("identity list predicates: Parsed()=%v Empty()=%v VNo()=%d with %d values", p.Parsed(), p.Empty(), p.VNo(), len(flat))
+	}
+	for i := 0; i < 4; i++ {
+		if g := p.GetPAI(i); (g != nil) != (i < p.VNo()) {
+			return fmt.Sprintf("GetPAI(%d) = %v with %d stored values", i, g != nil, p.VNo())
+		}
 	}
 	if p.More() != (len(flat) > len(p.Vals)) {
 		return fmt.Sprintf("More() = %v with %d values", p.More(), len(flat))
